@@ -23,3 +23,20 @@ package twistededwards
 //@ ensures[accept] isnil(result1) ==> canon && rooted && result0 == sizePointCompressed
 //@ modifies p
 //@ end
+
+// The encoder: the bytes of Y as its own Bytes() returned them (big-endian), reversed,
+// with the sign flag or-ed into what becomes the last byte: the "negative" flag exactly when
+// LexicographicallyLargest(X) reported true. The point is not written.
+//@ func PointAffine.Bytes
+//@ option opaque-calls
+//@ option nomerge
+//@ ghost lex = false
+//@ ghost enc = false
+//@ cut after call LexicographicallyLargest #1
+//@ + ghost lex = callresult
+//@ cut after call Bytes #1
+//@ + ghost enc = true
+//@ ensures[reversed] enc && forall(j, 0, sizePointCompressed - 1, result[j] == resultof_Bytes[sizePointCompressed - 1 - j])
+//@ ensures[sign] result[sizePointCompressed - 1] == bor8(resultof_Bytes[0], ite(lex, mCompressedNegative, mCompressedPositive))
+//@ modifies nothing
+//@ end
